@@ -48,6 +48,12 @@ def span_check(entry, sv):
             continue        # evaluating a constant cannot raise (covers the `None` Result.force_expr fabricates at line 0)
         if not (lo <= ln <= hi) or (eln is not None and not (ln <= eln <= hi)):
             bad.append(f"{type(n).__name__} at lines {ln}..{eln}, form spans {lo}..{hi}")
+    # the code of a sub-form keeps the position of that sub-form: a rule may position the nodes *it* builds anywhere in the form's span,
+    # but it must not re-position the compiled children (an error raised inside a child is reported on the child's own line)
+    for n in structural.nodes_of(out.result):
+        tok = getattr(n, "tok", None)
+        if tok is not None and getattr(n, "lineno", None) != tok.start_line:
+            bad.append(f"the code of sub-form {tok.name} (line {tok.start_line}) was moved to line {getattr(n, 'lineno', None)}")
     if bad:
         return ("violated", "; ".join(sorted(set(bad))[:6]) + "\n" + sx.show(out.result),
                 {"emitted": sx.show(out.result), "replay": _replay_span(entry, sv)})
